@@ -50,12 +50,13 @@ impl Permissioner {
                 return Ok(());
             }
 
-            if let Some(topic_permissions) = stream_permissions
-                .topics
-                .as_ref()
-                .and_then(|topics| topics.get(&stream_id))
-            {
-                if topic_permissions.manage_topic || topic_permissions.read_topic {
+            // Listing the topics of the stream is open to a user who may read any of them; the
+            // per-topic table is keyed by topic ID, never by stream ID.
+            if let Some(topics) = stream_permissions.topics.as_ref() {
+                if topics
+                    .values()
+                    .any(|topic| topic.manage_topic || topic.read_topic)
+                {
                     return Ok(());
                 }
             }
